@@ -508,6 +508,20 @@ fn run<T: QApi>(q: &mut T, op: &Value, cx: &mut Ctx, ev: &mut Map<String, Value>
             CMPS.with(|c| c.set(0));
             q.clear();
         }
+        "drain" => {
+            // drain().take(n), guard dropped: the elements yielded
+            let cnt = n(op, "n") as usize;
+            ev.insert("n".into(), json!(cnt));
+            let calls: Vec<(i64, usize)> = (0..cnt).map(|_| (0, 0)).collect();
+            cx.scratch.clear();
+            CMPS.with(|c| c.set(0));
+            {
+                let scratch = &mut *cx.scratch;
+                q.with_iter("drain", "", 0, false, &mut |p| proto_calls(p, &calls, scratch));
+            }
+            let ys: Vec<Value> = cx.scratch.iter().filter_map(|r| r.get("y").and_then(|y| y.as_array()).and_then(|a| a.first().cloned())).collect();
+            ev.insert("ys".into(), Value::Array(ys));
+        }
         "fill" => {
             // cost engine: n muted pushes of k0..k(n-1) with a priority pattern; one event
             let cnt = n(op, "n") as u64;
@@ -612,7 +626,8 @@ pub fn calls_of(op: &Value) -> Vec<(i64, usize)> {
     }).unwrap_or_default()
 }
 
-/// call codes: 0 next, 1 next_back, 2 len, 3 size_hint, 4 nth(k), 5 nth_back(k), 6 last (consumes), 7 count (consumes)
+/// call codes: 0 next, 1 next_back, 2 len, 3 size_hint, 4 nth(k), 5 nth_back(k), 6 last (consumes), 7 count (consumes),
+/// 8 fold, 9 rfold, 10 for_each (consume; logged element by element)
 pub fn proto_calls(p: &mut dyn Proto, calls: &[(i64, usize)], out: &mut Vec<Value>) {
     let yv = |y: Option<Y>| match y {
         None => json!([]),
@@ -641,8 +656,34 @@ pub fn proto_calls(p: &mut dyn Proto, calls: &[(i64, usize)], out: &mut Vec<Valu
                 None => json!({"c": 5, "st": "na", "k": k}),
             },
             6 => json!({"c": 6, "st": "done", "k": 0, "y": yv(p.last())}),
-            _ => json!({"c": 7, "st": "done", "k": 0, "len": p.count().min(1 << 30)}),
+            7 => json!({"c": 7, "st": "done", "k": 0, "len": p.count().min(1 << 30)}),
+            // internal iteration: one record per element the closure received, then the end record
+            8 | 9 | 10 => {
+                let ys = match c {
+                    8 => Some(p.fold_all()),
+                    9 => p.rfold_all(),
+                    _ => Some(p.for_each_all()),
+                };
+                match ys {
+                    Some(ys) => {
+                        out.pop();
+                        for y in ys {
+                            out.push(json!({"c": c, "st": "done", "k": 0, "y": yv(Some(y))}));
+                        }
+                        json!({"c": c, "st": "done", "k": 0, "y": yv(None)})
+                    }
+                    None => {
+                        out.pop();
+                        json!({"c": c, "st": "na", "k": 0})
+                    }
+                }
+            }
+            _ => panic!("harness: unknown call code {}", c),
         };
+        if matches!(c, 8 | 9 | 10) {
+            out.push(rec);
+            continue;
+        }
         *out.last_mut().unwrap() = rec;
     }
 }
